@@ -40,6 +40,10 @@ PARTS = {
     # wrong-kind conditions: a key-kind tree inside a list part etc. must match nothing, not raise
     "Lk": ("('list', K('equal_to', k))", [("k", "str")]),
     "Mi": ("('map', IX('equal_to', n))", [("n", "int")]),
+    # extra primitives for the deep document
+    "d": ("('prim', 'd')", []),
+    "x": ("('prim', 'x')", []),
+    "4": ("('prim', 4)", []),
 }
 
 DOCS = {
@@ -50,17 +54,30 @@ DOCS = {
     "dk": "{True: {'b': u1}, 0: u2, 1.5: [u1], 2.0: {'a': u2, 'b': 3}, -2: u3, None: [u3, {1: 0}]}",  # concrete numeric parts only
     "di": "{True: {'b': u1}, 0: u2, 2: {'a': u2, 'b': 3}, -2: u3, None: [u3, {1: 0}], 'b': [u1]}",  # no float keys: symbolic int parts
 }
+# a six-level document with five-item lists, for paths of 4-7 parts (the "deep" family; not combined with every shape)
+DEEP_DOC = ("{'a': {'b': {'c': [u1, {'d': [u2, u3, 7, u1, {'e': u2, 'b': [u3]}]}, 3, [u3], u2]}, 'x': [[[[u1, u2], []], {}]]}, "
+            "'l': [0, u2, 2, [], [u1, [u2, [u3, {'b': u1, 'd': [u2]}], 9], {'b': {'b': u3}}]]}")
+DOCS_ALL = dict(DOCS, d6=DEEP_DOC)
+DEEP_QUICK = [
+    ("a", "b", "c", "i"), ("a", "b", "c", "1", "d", "j"), ("a", "b", "c", "1", "d", "Li"), ("X", "X", "X", "X", "X"),
+    ("l", "4", "j", "1", "1", "s"), ("a", "x", "L", "L", "L", "i"),
+]
+DEEP_MORE = [
+    ("M", "M", "M", "L"), ("a", "b", "c", "X", "d", "Xv"), ("X", "X", "X", "X", "X", "X"), ("l", "Li", "L", "L", "L", "Mk"),
+    ("a", "b", "c", "Lie", "d", "4", "s"), ("l", "4", "Ll", "Ll", "Md", "b"), ("a", "b", "c", "i", "d", "j", "s"),
+    ("X", "X", "c", "L", "d", "L"), ("l", "L", "L", "L", "L", "M"), ("a", "Md", "L", "L", "Ll", "Lv"),
+]
 
 
 def BOUNDS(ctx):
     return {
-        "path skeletons": "lengths 1-%d over part kinds: primitive str/int/bool (symbolic) and float (concrete 1.0/1.5), bare and "
+        "path skeletons": "lengths 1-%d (and a deep family of 4-7 parts over a six-level document with five-item lists) over part kinds: primitive str/int/bool (symbolic) and float (concrete 1.0/1.5), bare and "
                           "conditioned MapValue/ListValue/MapOrListValue (key/index/value conditions, and/or-combined, wrong-kind "
                           "conditions); see props/C03.py SHAPES" % (3 if ctx.quick else 4),
         "documents": "three 3-level skeletons (mapping root, list root, mapping with int/bool/float/None keys), leaves u1..u3 of "
                      "Union[int,bool,None,str]; mapping keys concrete",
         "symbolic": "document leaves, primitive str/int/bool parts, condition thresholds and keys; str len <= %d" % (2 if ctx.quick else 3),
-        "outside": "paths longer than the bound, documents deeper than 3 levels, float primitive parts other than 1.0/1.5, "
+        "outside": "paths longer than the bound, documents deeper than 3 levels (6 in the deep family), float primitive parts other than 1.0/1.5, "
                    "DataPathMultiType.ANY",
     }
 
@@ -99,7 +116,7 @@ def path_case(shape, docid, L, tag="", narrow=True):
     names = ", ".join(p[0] for p in params)
     body = f"""
 PT = ({', '.join(parts)},)
-doc = {DOCS[docid]}
+doc = {DOCS_ALL[docid]}
 path = build_path(PT)
 got = path.get_data(doc, return_paths=True)
 exp = ref_walk(PT, doc)
@@ -178,6 +195,9 @@ def cases(ctx):
                 if docid == "dk" and symbolic_num:
                     continue  # a float key against a symbolic int stalls z3: float keys meet concrete parts only
                 out.append(path_case(sh, docid, L))
+    # deep family: 4-7 parts over a six-level document with five-item lists
+    for sh in (DEEP_QUICK if ctx.quick else DEEP_QUICK + DEEP_MORE):
+        out.append(path_case(sh, "d6", L, tag="deep"))
     # the empty path
     body = """
 doc = [u1, {'a': u2}]
